@@ -5,7 +5,7 @@ add("C02", "checks/c02_dispatch.c", ["default-asan", "default-plain", "noinfo-pl
     "handler/error event trace, SCPI_CmdTag, cmd_raw, SCPI_IsCmd and the drained queue are compared with a reference resolver; "
     "distinct_nontrivial = distinct (table, message) pairs",
     extra_sources=["kit/ref_match.c"],
-    rule_more="entries without callback (they still shadow later entries); suffixes zero-padded to 14 digits; 2..3 messages per context, half of them ended by a zero-length input call; another table installed on the live context between messages (in place or by pointer); decoy context; errno varied",
+    rule_more="entries without callback (they still shadow later entries); suffixes zero-padded to 14 digits; 2..3 messages per context, half of them ended by a zero-length input call; another table installed on the live context between messages (in place or by pointer); decoy context; errno varied; empty message units in front, in the middle (before absolute headers) and at the end of a message; flush-terminated messages also travelling behind an empty line of the same input call",
     technique="reference-model monitor over the handler/error event trace (effective-header rule from the statement + independent pattern matcher, first match)",
     level_text="exploration by execution over randomly generated tables and messages; each combination (defined/undefined x absolute/relative x kind of preceding unit) is counted and the essential ones are required to occur",
     level_note="trusted: kit/ref_match.c (checked itself against the library by C03), the effective-header rule as worded in the statement",
